@@ -471,12 +471,19 @@ package fs
 //@   ensures[C08] viso.totalSize == 2048 * viso.volumeSizeSectors && viso.volumeSizeSectors % 32 == 0 @whole-sectors-and-announced-size-agree
 //@   ensures[C08] viso.padAreaStart == 2048 * (filesLBA + viso.filesSizeSectors) && viso.padAreaSize >= 65536 && viso.padAreaSize < 131072 && viso.totalSize == viso.padAreaStart + viso.padAreaSize @padding-after-the-last-file
 
-// pathTable.size: sum of entry sizes, abstracted as ptSize(table) with the bounds the callers need.
-//@ spec ptBytes(arr int, off int, n int) int
+// pathTable.size: the sum of the entry sizes. ptSum(ids, lo, hi) is that sum over the identifiers stored at the
+// absolute indices lo..hi-1 of the table's array; the part of memory it depends on is an explicit argument, so a
+// change of an identifier changes the sum.
+//@ spec ptSum(ids map[int]str, lo int, hi int) int
+//@ axiom ptSum-empty: forall ids map[int]str, lo int {ptSum(ids, lo, lo)} :: ptSum(ids, lo, lo) == 0
+//@ axiom ptSum-step: forall ids map[int]str, lo int, k int {ptSum(ids, lo, k), ids[k]} :: lo <= k ==> ptSum(ids, lo, k + 1) == ptSum(ids, lo, k) + pteSize(len(ids[k]))
+//@ pred ptBytesOf(t pathTable) := ptSum(leaf(t, "DirIdentifier"), base(t), end(t))
 //@ func pathTable.size
 //@   tags C04,C08
-//@   trusted
-//@   ensures result == ptBytes(t.$arr, t.$off, len(t)) && 0 <= result && result <= 263 * len(t)
+//@   requires ptOK(t) && len(t) <= 65536
+//@   ensures[C08] result == ptSum(leaf(t, "DirIdentifier"), base(t), end(t)) @sum-of-the-entry-sizes
+//@   ensures 0 <= result && result <= 264 * len(t)
+//@   loop 1 invariant ret == ptSum(leaf(t, "DirIdentifier"), base(t), base(t) + $idx) && 0 <= ret && ret <= 264 * $idx
 
 //@ pred vdWritten(viso *VirtualISO, k int, typ int) := viso.volumeDescriptors[k].Header.Type == typ && viso.volumeDescriptors[k].Header.Identifier[0] == 'C' && viso.volumeDescriptors[k].Header.Identifier[1] == 'D' && viso.volumeDescriptors[k].Header.Identifier[2] == '0' && viso.volumeDescriptors[k].Header.Identifier[3] == '0' && viso.volumeDescriptors[k].Header.Identifier[4] == '1'
 
@@ -484,16 +491,17 @@ package fs
 //@   tags C04,C08
 //@   requires viso != nil && len(viso.rootDir) >= 1 && len(viso.rootDir[0].dirEntry) >= 1 && len(viso.rootDir[0].dirEntryJoliet) >= 1
 //@   requires 0 <= viso.volumeSizeSectors && len(viso.pathTable) <= 65536 && len(viso.pathTableJoliet) <= 65536
+//@   requires ptOK(viso.pathTable) && ptOK(viso.pathTableJoliet) @path-table-identifiers-fit-their-length-byte
 //@   requires deOKv(viso.rootDir[0].dirEntry[0]) && deSize(len(viso.rootDir[0].dirEntry[0].Identifier), len(viso.rootDir[0].dirEntry[0].SystemUse)) <= 34 && deOKv(viso.rootDir[0].dirEntryJoliet[0]) && deSize(len(viso.rootDir[0].dirEntryJoliet[0].Identifier), len(viso.rootDir[0].dirEntryJoliet[0].SystemUse)) <= 34 @root-records-fit-the-descriptor-field
 //@   modifies viso.volumeDescriptors
 //@   ensures[C08] vdWritten(viso, 0, 1) && vdWritten(viso, 1, 2) && vdWritten(viso, 2, 255) @primary-supplementary-terminator
 //@   ensures[C08] viso.volumeDescriptors[0].Primary != nil && viso.volumeDescriptors[0].Primary.VolumeSpaceSize == viso.volumeSizeSectors && viso.volumeDescriptors[0].Primary.LogicalBlockSize == 2048 @primary-announces-the-volume-size
 //@   ensures[C08] viso.volumeDescriptors[1].Primary != nil && viso.volumeDescriptors[1].Primary.VolumeSpaceSize == viso.volumeSizeSectors && viso.volumeDescriptors[1].Primary.LogicalBlockSize == 2048 @supplementary-announces-the-volume-size
-//@   let ptS = secs(ptBytes(viso.pathTable.$arr, viso.pathTable.$off, len(viso.pathTable)))
-//@   let ptJS = secs(ptBytes(viso.pathTableJoliet.$arr, viso.pathTableJoliet.$off, len(viso.pathTableJoliet)))
+//@   let ptS = secs(ptSum(leaf(viso.pathTable, "DirIdentifier"), base(viso.pathTable), end(viso.pathTable)))
+//@   let ptJS = secs(ptSum(leaf(viso.pathTableJoliet, "DirIdentifier"), base(viso.pathTableJoliet), end(viso.pathTableJoliet)))
 //@   ensures[C08] viso.volumeDescriptors[0].Primary.TypeLPathTableLoc == 20 && viso.volumeDescriptors[0].Primary.TypeMPathTableLoc == 20 + ptS @path-table-locations
 //@   ensures[C08] viso.volumeDescriptors[1].Primary.TypeLPathTableLoc == 20 + 2 * ptS && viso.volumeDescriptors[1].Primary.TypeMPathTableLoc == 20 + 2 * ptS + ptJS @joliet-path-table-locations-follow-both-iso-tables
-//@   ensures[C08] viso.volumeDescriptors[0].Primary.PathTableSize == ptBytes(viso.pathTable.$arr, viso.pathTable.$off, len(viso.pathTable)) && viso.volumeDescriptors[1].Primary.PathTableSize == ptBytes(viso.pathTableJoliet.$arr, viso.pathTableJoliet.$off, len(viso.pathTableJoliet)) @path-table-sizes
+//@   ensures[C08] viso.volumeDescriptors[0].Primary.PathTableSize == ptSum(leaf(viso.pathTable, "DirIdentifier"), base(viso.pathTable), end(viso.pathTable)) && viso.volumeDescriptors[1].Primary.PathTableSize == ptSum(leaf(viso.pathTableJoliet, "DirIdentifier"), base(viso.pathTableJoliet), end(viso.pathTableJoliet)) @path-table-sizes
 //@   ensures[C08] parr(viso.volumeDescriptors[0].Primary.RootDirectoryEntry) == viso.rootDir[0].dirEntry.$arr && pidx(viso.volumeDescriptors[0].Primary.RootDirectoryEntry) == base(viso.rootDir[0].dirEntry) && parr(viso.volumeDescriptors[1].Primary.RootDirectoryEntry) == viso.rootDir[0].dirEntryJoliet.$arr && pidx(viso.volumeDescriptors[1].Primary.RootDirectoryEntry) == base(viso.rootDir[0].dirEntryJoliet) @root-records-are-the-first-records-of-the-root-directory
 //@   ensures[C04] vdOKv(viso.volumeDescriptors[0]) && vdOKv(viso.volumeDescriptors[1]) && vdOKv(viso.volumeDescriptors[2]) @descriptors-encodable
 //@   ensures fresh(viso.volumeDescriptors[0].Primary) && fresh(viso.volumeDescriptors[1].Primary)
@@ -520,6 +528,13 @@ package fs
 //@   ensures[C08] err == nil ==> len(viso.fsBuf) % 2048 == 0 && len(viso.fsBuf) >= 40960 @metadata-is-whole-sectors
 //@   ensures[C08] err == nil ==> hdrsWritten(viso) @descriptors-in-sectors-16-17-18
 //@   ensures[C08] err == nil && viso.ps3Mode ==> ps3Written(viso) @ps3-sectors-0-and-1
+//@   let ptS = secs(ptSum(leaf(viso.pathTable, "DirIdentifier"), base(viso.pathTable), end(viso.pathTable)))
+//@   let ptJS = secs(ptSum(leaf(viso.pathTableJoliet, "DirIdentifier"), base(viso.pathTableJoliet), end(viso.pathTableJoliet)))
+//@   loop 2 invariant[C08] len(viso.fsBuf) == 40960 + ptSum(leaf(viso.pathTable, "DirIdentifier"), base(viso.pathTable), base(viso.pathTable) + $idx) && len(viso.fsBuf) >= 40960 @L-table-starts-at-sector-20
+//@   loop 3 invariant[C08] len(viso.fsBuf) == 2048 * (20 + ptS) + ptSum(leaf(viso.pathTable, "DirIdentifier"), base(viso.pathTable), base(viso.pathTable) + $idx) @M-table-follows-the-L-table
+//@   loop 4 invariant[C08] len(viso.fsBuf) == 2048 * (20 + 2 * ptS) + ptSum(leaf(viso.pathTableJoliet, "DirIdentifier"), base(viso.pathTableJoliet), base(viso.pathTableJoliet) + $idx) && len(viso.fsBuf) >= 2048 * (20 + 2 * ptS) @joliet-L-table-follows-both-iso-tables
+//@   loop 5 invariant[C08] len(viso.fsBuf) == 2048 * (20 + 2 * ptS + ptJS) + ptSum(leaf(viso.pathTableJoliet, "DirIdentifier"), base(viso.pathTableJoliet), base(viso.pathTableJoliet) + $idx) @joliet-M-table-follows-the-joliet-L-table
+//@   loop 6 invariant[C08] $idx == 0 ==> len(viso.fsBuf) == 2048 * (20 + 2 * ptS + 2 * ptJS) @iso-directory-area-follows-the-four-path-tables
 //@   loop 2 invariant len(viso.fsBuf) >= 38912 && base(viso.fsBuf) == 0 && iofaults >= old(iofaults) && ($idx >= 1 ==> len(viso.fsBuf) > 38912) @shape
 //@   loop 2 invariant vdAt(addr(viso.fsBuf), 32768, viso.volumeDescriptors[0]) @descriptor-0-kept
 //@   loop 2 invariant vdAt(addr(viso.fsBuf), 34816, viso.volumeDescriptors[1]) @descriptor-1-kept
@@ -567,6 +582,9 @@ package fs
 //@ spec childOf(c str, p str) bool
 // identOf(name, joliet): the identifier a name is mapped to (deterministic)
 //@ spec identOf(name str, joliet bool) str
+// the mapping writes only d1 characters, '_' or their UTF-16 form: never the one-byte identifiers of '.' and '..'
+// (assumed with makeIdentifier, which is trusted; run against the real function by the conformance tests)
+//@ axiom identOf-is-not-dot: forall n str, j bool {identOf(n, j)} :: identOf(n, j) != dotEntryIdentifier && identOf(n, j) != dotDotEntryIdentifier
 
 //@ func dirItem.isDirectChild results(ok)
 //@   tags C04,C08
@@ -618,10 +636,13 @@ package fs
 // dirItemList.size: bytes of all directories of one hierarchy, each rounded up to whole sectors.
 // ASSUMED bounds: the records are held in memory, so their total is far below 2^40 bytes.
 //@ spec dirBytes(arr int, off int, n int, joliet bool) int
+// no directory of the hierarchy has records yet
+//@ pred noneBuilt(l dirItemList, joliet bool) := forall y {at(l, y).dirEntry.$len} {at(l, y).dirEntryJoliet.$len} :: base(l) <= y && y < end(l) ==> (joliet ? len(at(l, y).dirEntryJoliet) : len(at(l, y).dirEntry)) == 0
 //@ func dirItemList.size
 //@   tags C04,C08
 //@   trusted
 //@   ensures 0 <= result && result < 1<<40 && result % 2048 == 0
+//@   ensures noneBuilt(l, joliet) ==> result == 0 @no-records-no-bytes
 
 // location bounds before relocation: directory records point below maxDir, file records below maxFile
 //@ pred entriesBounded(s []directoryEntry, maxDir int, maxFile int) := forall z {at(s, z).ExtentLocation} :: base(s) <= z && z < end(s) ==> 0 <= at(s, z).ExtentLocation && at(s, z).ExtentLocation <= maxFile
@@ -630,7 +651,7 @@ package fs
 //@ pred filesScanned(f []directoryFile) := (forall z {at(f, z).size} {at(f, z).rLBA} {at(f, z).name} :: base(f) <= z && z < end(f) ==> 0 <= at(f, z).size && at(f, z).size < 1<<41 && 0 <= at(f, z).rLBA && at(f, z).rLBA + secs(at(f, z).size) <= 0x30000001 && len(at(f, z).name) < 65536)
 // every directory listed before index k has its records built (both hierarchies when joliet) and they fit their fields
 //@ pred builtBefore(l dirItemList, k int, joliet bool) := forall y {at(l, y).dirEntry.$len} {at(l, y).dirEntryJoliet.$len} {at(l, y).dirEntry.$arr} {at(l, y).dirEntryJoliet.$arr} :: base(l) <= y && y < k ==> len(at(l, y).dirEntry) >= 2 && entriesOK(at(l, y).dirEntry) && entriesBounded(at(l, y).dirEntry, 0x20000000, 0x30000001) && dotFirst(at(l, y).dirEntry) && (joliet ==> len(at(l, y).dirEntryJoliet) >= 2 && entriesOK(at(l, y).dirEntryJoliet) && entriesBounded(at(l, y).dirEntryJoliet, 0x20000000, 0x30000001) && dotFirst(at(l, y).dirEntryJoliet))
-//@ pred dotFirst(s []directoryEntry) := len(at(s, base(s)).Identifier) == 1 && len(at(s, base(s)).SystemUse) == 0
+//@ pred dotFirst(s []directoryEntry) := len(at(s, base(s)).Identifier) == 1 && len(at(s, base(s)).SystemUse) == 0 && at(s, base(s)).Identifier == dotEntryIdentifier
 //@ pred namesShort(l dirItemList) := forall y {at(l, y).name} :: base(l) <= y && y < end(l) ==> len(at(l, y).name) < 65536
 
 //@ func VirtualISO.makeDirEntries results(err)
@@ -639,6 +660,9 @@ package fs
 //@   requires viso != nil && item != nil && parr(item) == viso.rootDir.$arr && base(viso.rootDir) <= pidx(item) && pidx(item) < end(viso.rootDir) @item-is-an-element-of-rootDir
 //@   requires builtBefore(viso.rootDir, pidx(item), joliet) && filesScanned(item.files) && namesShort(viso.rootDir)
 //@   requires !joliet ==> len(item.dirEntry) == 0
+//@   requires[C08] forall y {at(viso.rootDir, y).dirEntry.$len} {at(viso.rootDir, y).dirEntryJoliet.$len} :: pidx(item) <= y && y < end(viso.rootDir) ==> (joliet ? len(at(viso.rootDir, y).dirEntryJoliet) : len(at(viso.rootDir, y).dirEntry)) == 0 @this-and-the-later-directories-have-no-records-yet
+//@   requires[C08] !joliet ==> (forall y {recOwner[at(viso.rootDir, y).dirEntry.$arr]} {at(viso.rootDir, y).dirEntry.$arr} :: base(viso.rootDir) <= y && y < pidx(item) ==> recOwner[at(viso.rootDir, y).dirEntry.$arr] == 2 * y) @earlier-iso-record-arrays-are-owned-by-their-directories
+//@   requires[C08] joliet ==> (forall y {recOwner[at(viso.rootDir, y).dirEntryJoliet.$arr]} {at(viso.rootDir, y).dirEntryJoliet.$arr} :: base(viso.rootDir) <= y && y < pidx(item) ==> recOwner[at(viso.rootDir, y).dirEntryJoliet.$arr] == 2 * y + 1) @earlier-joliet-record-arrays-are-owned-by-their-directories
 //@   requires joliet ==> len(item.dirEntryJoliet) == 0 && builtBefore(viso.rootDir, end(viso.rootDir), false)
 //@   modifies allmem(dirItem).dirEntry, allmem(dirItem).dirEntryJoliet, allmem(directoryEntry)
 //@   update recOwner = mapset(recOwner, joliet ? item.dirEntryJoliet.$arr : item.dirEntry.$arr, 2 * pidx(item) + (joliet ? 1 : 0))
@@ -647,6 +671,10 @@ package fs
 //@   ensures[C08] err == nil && joliet && isParentIdx(viso.rootDir, item.path, py) ==> item.dirEntryJoliet[1].ExtentLocation == old(at(viso.rootDir, py).dirEntryJoliet[0].ExtentLocation) && item.dirEntryJoliet[1].ExtentLength == old(at(viso.rootDir, py).dirEntryJoliet[0].ExtentLength) @joliet-dotdot-is-the-parent's-joliet-dot-record
 //@   ensures[C08] err == nil && !joliet && hasNoParent(viso.rootDir, item.path) ==> item.dirEntry[1].ExtentLocation == item.dirEntry[0].ExtentLocation && item.dirEntry[1].ExtentLength == item.dirEntry[0].ExtentLength @iso-root-dotdot-is-the-root
 //@   ensures[C08] err == nil && joliet && hasNoParent(viso.rootDir, item.path) ==> item.dirEntryJoliet[1].ExtentLocation == item.dirEntryJoliet[0].ExtentLocation && item.dirEntryJoliet[1].ExtentLength == item.dirEntryJoliet[0].ExtentLength @joliet-root-dotdot-is-the-root
+//@   ensures[C08] err == nil && !joliet && old(noneBuilt(viso.rootDir, false)) ==> item.dirEntry[0].ExtentLocation == 0 && item.dirEntry[0].FileFlags == 2 @the-first-iso-directory-starts-the-iso-directory-area
+//@   ensures[C08] err == nil && joliet && old(noneBuilt(viso.rootDir, true)) ==> item.dirEntryJoliet[0].ExtentLocation == 0 && item.dirEntryJoliet[0].FileFlags == 2 @the-first-joliet-directory-starts-the-joliet-directory-area
+//@   ensures[C08] err == nil && (joliet || pidx(item) != base(viso.rootDir)) && old(len(at(viso.rootDir, base(viso.rootDir)).dirEntry)) >= 1 ==> at(at(viso.rootDir, base(viso.rootDir)).dirEntry, base(at(viso.rootDir, base(viso.rootDir)).dirEntry)).ExtentLocation == old(at(at(viso.rootDir, base(viso.rootDir)).dirEntry, base(at(viso.rootDir, base(viso.rootDir)).dirEntry)).ExtentLocation) && at(at(viso.rootDir, base(viso.rootDir)).dirEntry, base(at(viso.rootDir, base(viso.rootDir)).dirEntry)).FileFlags == old(at(at(viso.rootDir, base(viso.rootDir)).dirEntry, base(at(viso.rootDir, base(viso.rootDir)).dirEntry)).FileFlags) @iso-root-record-kept
+//@   ensures[C08] err == nil && joliet && pidx(item) != base(viso.rootDir) ==> at(at(viso.rootDir, base(viso.rootDir)).dirEntryJoliet, base(at(viso.rootDir, base(viso.rootDir)).dirEntryJoliet)).ExtentLocation == old(at(at(viso.rootDir, base(viso.rootDir)).dirEntryJoliet, base(at(viso.rootDir, base(viso.rootDir)).dirEntryJoliet)).ExtentLocation) && at(at(viso.rootDir, base(viso.rootDir)).dirEntryJoliet, base(at(viso.rootDir, base(viso.rootDir)).dirEntryJoliet)).FileFlags == old(at(at(viso.rootDir, base(viso.rootDir)).dirEntryJoliet, base(at(viso.rootDir, base(viso.rootDir)).dirEntryJoliet)).FileFlags) @joliet-root-record-kept
 //@   ensures[C08] err == nil ==> builtBefore(viso.rootDir, pidx(item) + 1, joliet) @records-built-so-far-fit-their-fields
 //@   ensures err == nil ==> (forall y {at(viso.rootDir, y).dirEntry.$len} {at(viso.rootDir, y).dirEntryJoliet.$len} :: pidx(item) < y && y < end(viso.rootDir) ==> len(at(viso.rootDir, y).dirEntry) == old(len(at(viso.rootDir, y).dirEntry)) && len(at(viso.rootDir, y).dirEntryJoliet) == old(len(at(viso.rootDir, y).dirEntryJoliet))) @later-directories-untouched
 //@   ensures err == nil && joliet ==> builtBefore(viso.rootDir, end(viso.rootDir), false) @iso-records-still-fit
@@ -670,8 +698,14 @@ package fs
 //@   loop 3 invariant (!joliet ==> len(item.dirEntry) >= 2 && entriesOK(item.dirEntry) && len(item.dirEntry) <= 2 + 513 * len(item.files) + $idx && 0 <= totalSizeBytes && totalSizeBytes <= 255 * len(item.dirEntry) && fresh(item.dirEntry.$arr) && entriesBounded(item.dirEntry, 0x20000000, 0x30000001) && dotFirst(item.dirEntry) && item.dirEntryJoliet == old(item.dirEntryJoliet)) && (joliet ==> len(item.dirEntryJoliet) >= 2 && entriesOK(item.dirEntryJoliet) && len(item.dirEntryJoliet) <= 2 + 513 * len(item.files) + $idx && 0 <= totalSizeBytes && totalSizeBytes <= 255 * len(item.dirEntryJoliet) && fresh(item.dirEntryJoliet.$arr) && entriesBounded(item.dirEntryJoliet, 0x20000000, 0x30000001) && dotFirst(item.dirEntryJoliet) && item.dirEntry == pre(item.dirEntry) && item.dirEntry.$arr != item.dirEntryJoliet.$arr && builtBefore(viso.rootDir, end(viso.rootDir), false)) @own-records
 //@   loop 3 invariant (forall y {at(viso.rootDir, y).dirEntry.$len} {at(viso.rootDir, y).dirEntryJoliet.$len} {at(viso.rootDir, y).dirEntry.$arr} {at(viso.rootDir, y).dirEntryJoliet.$arr} :: base(viso.rootDir) <= y && y < end(viso.rootDir) && y != pidx(item) ==> at(viso.rootDir, y).dirEntry == old(at(viso.rootDir, y).dirEntry) && at(viso.rootDir, y).dirEntryJoliet == old(at(viso.rootDir, y).dirEntryJoliet) && at(viso.rootDir, y).dirEntry.$arr != (joliet ? item.dirEntryJoliet.$arr : item.dirEntry.$arr) && at(viso.rootDir, y).dirEntryJoliet.$arr != (joliet ? item.dirEntryJoliet.$arr : item.dirEntry.$arr)) @other-directories-keep-their-slices
 //@   loop 3 invariant builtBefore(viso.rootDir, pidx(item), joliet) @earlier-directories-still-built
+//@   loop 1 invariant ((joliet || pidx(item) != base(viso.rootDir)) && pre(len(at(viso.rootDir, base(viso.rootDir)).dirEntry)) >= 1 ==> at(at(viso.rootDir, base(viso.rootDir)).dirEntry, base(at(viso.rootDir, base(viso.rootDir)).dirEntry)).ExtentLocation == pre(at(at(viso.rootDir, base(viso.rootDir)).dirEntry, base(at(viso.rootDir, base(viso.rootDir)).dirEntry)).ExtentLocation) && at(at(viso.rootDir, base(viso.rootDir)).dirEntry, base(at(viso.rootDir, base(viso.rootDir)).dirEntry)).FileFlags == pre(at(at(viso.rootDir, base(viso.rootDir)).dirEntry, base(at(viso.rootDir, base(viso.rootDir)).dirEntry)).FileFlags)) && (joliet && pidx(item) != base(viso.rootDir) ==> at(at(viso.rootDir, base(viso.rootDir)).dirEntryJoliet, base(at(viso.rootDir, base(viso.rootDir)).dirEntryJoliet)).ExtentLocation == pre(at(at(viso.rootDir, base(viso.rootDir)).dirEntryJoliet, base(at(viso.rootDir, base(viso.rootDir)).dirEntryJoliet)).ExtentLocation) && at(at(viso.rootDir, base(viso.rootDir)).dirEntryJoliet, base(at(viso.rootDir, base(viso.rootDir)).dirEntryJoliet)).FileFlags == pre(at(at(viso.rootDir, base(viso.rootDir)).dirEntryJoliet, base(at(viso.rootDir, base(viso.rootDir)).dirEntryJoliet)).FileFlags)) @root-records-kept
+//@   loop 2 invariant ((joliet || pidx(item) != base(viso.rootDir)) && pre(len(at(viso.rootDir, base(viso.rootDir)).dirEntry)) >= 1 ==> at(at(viso.rootDir, base(viso.rootDir)).dirEntry, base(at(viso.rootDir, base(viso.rootDir)).dirEntry)).ExtentLocation == pre(at(at(viso.rootDir, base(viso.rootDir)).dirEntry, base(at(viso.rootDir, base(viso.rootDir)).dirEntry)).ExtentLocation) && at(at(viso.rootDir, base(viso.rootDir)).dirEntry, base(at(viso.rootDir, base(viso.rootDir)).dirEntry)).FileFlags == pre(at(at(viso.rootDir, base(viso.rootDir)).dirEntry, base(at(viso.rootDir, base(viso.rootDir)).dirEntry)).FileFlags)) && (joliet && pidx(item) != base(viso.rootDir) ==> at(at(viso.rootDir, base(viso.rootDir)).dirEntryJoliet, base(at(viso.rootDir, base(viso.rootDir)).dirEntryJoliet)).ExtentLocation == pre(at(at(viso.rootDir, base(viso.rootDir)).dirEntryJoliet, base(at(viso.rootDir, base(viso.rootDir)).dirEntryJoliet)).ExtentLocation) && at(at(viso.rootDir, base(viso.rootDir)).dirEntryJoliet, base(at(viso.rootDir, base(viso.rootDir)).dirEntryJoliet)).FileFlags == pre(at(at(viso.rootDir, base(viso.rootDir)).dirEntryJoliet, base(at(viso.rootDir, base(viso.rootDir)).dirEntryJoliet)).FileFlags)) @root-records-kept
+//@   loop 3 invariant ((joliet || pidx(item) != base(viso.rootDir)) && pre(len(at(viso.rootDir, base(viso.rootDir)).dirEntry)) >= 1 ==> at(at(viso.rootDir, base(viso.rootDir)).dirEntry, base(at(viso.rootDir, base(viso.rootDir)).dirEntry)).ExtentLocation == pre(at(at(viso.rootDir, base(viso.rootDir)).dirEntry, base(at(viso.rootDir, base(viso.rootDir)).dirEntry)).ExtentLocation) && at(at(viso.rootDir, base(viso.rootDir)).dirEntry, base(at(viso.rootDir, base(viso.rootDir)).dirEntry)).FileFlags == pre(at(at(viso.rootDir, base(viso.rootDir)).dirEntry, base(at(viso.rootDir, base(viso.rootDir)).dirEntry)).FileFlags)) && (joliet && pidx(item) != base(viso.rootDir) ==> at(at(viso.rootDir, base(viso.rootDir)).dirEntryJoliet, base(at(viso.rootDir, base(viso.rootDir)).dirEntryJoliet)).ExtentLocation == pre(at(at(viso.rootDir, base(viso.rootDir)).dirEntryJoliet, base(at(viso.rootDir, base(viso.rootDir)).dirEntryJoliet)).ExtentLocation) && at(at(viso.rootDir, base(viso.rootDir)).dirEntryJoliet, base(at(viso.rootDir, base(viso.rootDir)).dirEntryJoliet)).FileFlags == pre(at(at(viso.rootDir, base(viso.rootDir)).dirEntryJoliet, base(at(viso.rootDir, base(viso.rootDir)).dirEntryJoliet)).FileFlags)) @root-records-kept
+//@   loop 1 invariant (!joliet ==> item.dirEntry[0].ExtentLocation == pre(item.dirEntry[0].ExtentLocation) && item.dirEntry[0].FileFlags == pre(item.dirEntry[0].FileFlags)) && (joliet ==> item.dirEntryJoliet[0].ExtentLocation == pre(item.dirEntryJoliet[0].ExtentLocation) && item.dirEntryJoliet[0].FileFlags == pre(item.dirEntryJoliet[0].FileFlags)) @dot-record-kept
 //@   loop 1 invariant (!joliet ==> item.dirEntry[1].ExtentLocation == pre(item.dirEntry[1].ExtentLocation) && item.dirEntry[1].ExtentLength == pre(item.dirEntry[1].ExtentLength)) && (joliet ==> item.dirEntryJoliet[1].ExtentLocation == pre(item.dirEntryJoliet[1].ExtentLocation) && item.dirEntryJoliet[1].ExtentLength == pre(item.dirEntryJoliet[1].ExtentLength)) @dotdot-record-kept
+//@   loop 2 invariant (!joliet ==> item.dirEntry[0].ExtentLocation == pre(item.dirEntry[0].ExtentLocation) && item.dirEntry[0].FileFlags == pre(item.dirEntry[0].FileFlags)) && (joliet ==> item.dirEntryJoliet[0].ExtentLocation == pre(item.dirEntryJoliet[0].ExtentLocation) && item.dirEntryJoliet[0].FileFlags == pre(item.dirEntryJoliet[0].FileFlags)) @dot-record-kept
 //@   loop 2 invariant (!joliet ==> item.dirEntry[1].ExtentLocation == pre(item.dirEntry[1].ExtentLocation) && item.dirEntry[1].ExtentLength == pre(item.dirEntry[1].ExtentLength)) && (joliet ==> item.dirEntryJoliet[1].ExtentLocation == pre(item.dirEntryJoliet[1].ExtentLocation) && item.dirEntryJoliet[1].ExtentLength == pre(item.dirEntryJoliet[1].ExtentLength)) @dotdot-record-kept
+//@   loop 3 invariant (!joliet ==> item.dirEntry[0].ExtentLocation == pre(item.dirEntry[0].ExtentLocation) && item.dirEntry[0].FileFlags == pre(item.dirEntry[0].FileFlags)) && (joliet ==> item.dirEntryJoliet[0].ExtentLocation == pre(item.dirEntryJoliet[0].ExtentLocation) && item.dirEntryJoliet[0].FileFlags == pre(item.dirEntryJoliet[0].FileFlags)) @dot-record-kept
 //@   loop 3 invariant (!joliet ==> item.dirEntry[1].ExtentLocation == pre(item.dirEntry[1].ExtentLocation) && item.dirEntry[1].ExtentLength == pre(item.dirEntry[1].ExtentLength)) && (joliet ==> item.dirEntryJoliet[1].ExtentLocation == pre(item.dirEntryJoliet[1].ExtentLocation) && item.dirEntryJoliet[1].ExtentLength == pre(item.dirEntryJoliet[1].ExtentLength)) @dotdot-record-kept
 
 //@ func VirtualISO.makePathTable results(t, err)
@@ -749,6 +783,9 @@ package fs
 //@   ensures[C04] err == nil ==> vdOKv(viso.volumeDescriptors[0]) && vdOKv(viso.volumeDescriptors[1]) && vdOKv(viso.volumeDescriptors[2]) && ptOK(viso.pathTable) && ptOK(viso.pathTableJoliet) && dirsOK(viso.rootDir) && len(viso.pathTable) >= 1 && 1 <= viso.volumeSizeSectors @everything-writeFSStructures-needs
 //@   ensures[C08] err == nil ==> viso.totalSize == 2048 * viso.volumeSizeSectors && viso.volumeSizeSectors % 32 == 0 && viso.totalSize == viso.padAreaStart + viso.padAreaSize && viso.padAreaSize >= 65536 @sizes-agree
 //@   ensures[C08] err == nil ==> viso.volumeDescriptors[0].Primary.VolumeSpaceSize == viso.volumeSizeSectors && viso.volumeDescriptors[1].Primary.VolumeSpaceSize == viso.volumeSizeSectors @descriptors-announce-the-volume-size
+//@   ensures[C08] err == nil ==> at(at(viso.rootDir, base(viso.rootDir)).dirEntry, base(at(viso.rootDir, base(viso.rootDir)).dirEntry)).ExtentLocation == 20 + 2 * secs(ptSum(leaf(viso.pathTable, "DirIdentifier"), base(viso.pathTable), end(viso.pathTable))) + 2 * secs(ptSum(leaf(viso.pathTableJoliet, "DirIdentifier"), base(viso.pathTableJoliet), end(viso.pathTableJoliet))) @the-root-directory-record-points-at-the-sector-after-the-four-path-tables
+//@   loop 1 invariant[C08] $idx >= 1 ==> at(at(viso.rootDir, base(viso.rootDir)).dirEntry, base(at(viso.rootDir, base(viso.rootDir)).dirEntry)).ExtentLocation == 0 && at(at(viso.rootDir, base(viso.rootDir)).dirEntry, base(at(viso.rootDir, base(viso.rootDir)).dirEntry)).FileFlags == 2 @iso-root-directory-starts-the-directory-area
+//@   loop 2 invariant[C08] at(at(viso.rootDir, base(viso.rootDir)).dirEntry, base(at(viso.rootDir, base(viso.rootDir)).dirEntry)).ExtentLocation == 0 && at(at(viso.rootDir, base(viso.rootDir)).dirEntry, base(at(viso.rootDir, base(viso.rootDir)).dirEntry)).FileFlags == 2 @iso-root-directory-starts-the-directory-area
 //@   loop 1 invariant 0 <= i && i <= len(viso.rootDir) && viso.rootDir == pre(viso.rootDir) && builtBefore(viso.rootDir, base(viso.rootDir) + i, false) && namesShort(viso.rootDir) && iofaults >= old(iofaults) @iso-pass
 //@   loop 1 invariant forall y {at(viso.rootDir, y).dirEntry.$len} {at(viso.rootDir, y).dirEntryJoliet.$len} {at(viso.rootDir, y).files.$arr} :: base(viso.rootDir) <= y && y < end(viso.rootDir) ==> filesScanned(at(viso.rootDir, y).files) && len(at(viso.rootDir, y).dirEntryJoliet) == 0 && (y >= base(viso.rootDir) + i ==> len(at(viso.rootDir, y).dirEntry) == 0) @rest-as-scanned
 //@   loop 1 invariant forall y {recOwner[at(viso.rootDir, y).dirEntry.$arr]} {at(viso.rootDir, y).dirEntry.$arr} :: base(viso.rootDir) <= y && y < base(viso.rootDir) + i ==> recOwner[at(viso.rootDir, y).dirEntry.$arr] == 2 * y @record-arrays-owned
